@@ -7,7 +7,7 @@ MANIFEST = dict(
          "Ldk styles every reachable manager state derives, and every channel slot of every reachable node (any "
          "creation order, other channels, setup, restarts) carries, exactly keys_of(style, network, seed, id), hence "
          "the same basepoints, funding key, per-commitment points and secrets; C18_distinct / C18_distinct_secrets — "
-         "different API channel ids give different keys under injectivity of the hash parameters (the HMAC key padding "
+         "C18_channel_id_injective — (peer id, dbid) -> channel id is injective on all 64-bit dbids (and the real id bytes are compared with it on every run); different API channel ids give different keys under injectivity of the hash parameters (the HMAC key padding "
          "is proved injective on API ids); C18_derivation_tree and C18_tree(_any_hash) — for every seed and every hash "
          "the secrets of commitment numbers 0..n-1 (n up to 2^48), provided in order to an empty "
          "CounterpartyCommitmentSecrets, are all accepted, the store holds at most 49 entries and returns every one of "
@@ -27,7 +27,8 @@ MANIFEST = dict(
               "correspondence with the Rust implementation",
 )
 
-PINNED = ["C18_history_independent", "C18_channel_keys_function", "C18_check_future_secret", "C18_distinct", "C18_distinct_secrets",
+PINNED = ["C18_history_independent", "C18_channel_keys_function", "C18_check_future_secret",
+          "C18_channel_id_injective", "C18_channel_id_is_api_id", "C18_distinct", "C18_distinct_secrets",
           "C18_api_ids_not_confused_by_padding", "C18_derivation_tree", "C18_tree_any_hash", "C18_tree",
           "C18_nonvacuous", "C18_tree_nonvacuous", "C18_lnd_order_dependent"]
 
@@ -47,22 +48,41 @@ def run(res):
     adv = lib.run_harness("keys", "adv", res.seed, 12 if quick else 72, res.tier)
     acases = adv.get("CASE", [])
     kcases, scases = hist.get("CASE", []) + acases, store.get("CASE", [])
+    broken = [c for c in kcases if c["coq"].startswith("(*")]       # a channel that could not even be set up
+    kcases = [c for c in kcases if not c["coq"].startswith("(*")]
     imports = ["Model.KeysCheck"]
     fk = lib.coq_failures(imports, "keys_case", "check_keys", [c["coq"] for c in kcases], "c18_keys")
     fs = lib.coq_failures(imports, "store_case", "check_store", [c["coq"] for c in scases], "c18_store")
+    idr = lib.run_harness("keys", "ids", res.seed, 4 if quick else 24, res.tier)
+    icases = idr.get("CASE", [])
+    id_terms = [(c, t) for c in icases for t in c["coq_ids"]]
+    ik_terms = [(c, t) for c in icases for t in c["coq_keys"]]
+    fi = lib.coq_failures(imports, "id_case", "check_id", [t for _, t in id_terms], "c18_ids")
+    fik = lib.coq_failures(imports, "keys_case", "check_keys", [t for _, t in ik_terms], "c18_idkeys",
+                           shards=min(lib.NCPU, max(1, len(ik_terms))))
     fcases = adv.get("FCASE", [])
     ff = lib.coq_failures(imports, "future_case", "check_future", [c["coq"] for c in fcases], "c18_future",
                           shards=min(lib.NCPU, max(1, len(fcases))))
 
     # the property itself on the implementation's answers
     mon = []
-    for c in kcases:
+    for c in icases:
+        # most telling first: two names sharing keys, then the rest
+        vs = c.get("monitor_violations", [])
+        for v in sorted(vs, key=lambda v: 0 if "share" in v.get("what", "") else 1):
+            mon.append(("ids", v, c))
+    for c in broken + kcases:
         for v in c.get("monitor_violations", []):
             mon.append(("keys", v, c))
     for m in store.get("MONITOR", []):
         mon.append(("store", m, scases[m["case"]] if m.get("case", -1) < len(scases) else {}))
     for kind, v, c in mon[:3]:
-        if kind == "keys" and c.get("kind") == "adv":
+        if kind == "ids":
+            res.violation("(peer id, dbid) does not name a channel with keys of its own: " + v.get("what", ""),
+                          {"domain": "keys-ids", "seed": res.seed, "violation": v, "node_seed": c.get("seed"),
+                           "style": c.get("style"), "hsmd_protocol": c.get("proto"),
+                           "peer_a": c.get("peer_a"), "peer_b": c.get("peer_b"), "names": c.get("names")})
+        elif kind == "keys" and c.get("kind") == "adv":
             res.violation("per-commitment points / secrets are not a function of (seed, channel id, number asked): "
                           + v.get("what", ""),
                           {"domain": "keys-adv", "seed": res.seed, "violation": v, "node_seed": c.get("seed"),
@@ -82,6 +102,19 @@ def run(res):
             res.violation("derived keys / keys_id / released secrets disagree with Model.Keys (correspondence keys-hist)",
                           {"correspondence": "keys-hist", "theorem": "C18_channel_keys_function",
                            "case": _strip(c), "model": model[-3000:]}, has_input=False)
+        for i in fi[:2]:
+            c, t = id_terms[i]
+            res.violation("the channel id the signer uses for a (peer id, dbid) pair is not Model.Keys.chan_id_of peer dbid "
+                          "(correspondence keys-ids); C18_channel_id_injective no longer carries over",
+                          {"correspondence": "keys-ids", "theorem": "C18_channel_id_injective", "id_case": t,
+                           "names": c.get("names")}, has_input=False)
+        for i in fik[:2]:
+            c, t = ik_terms[i]
+            model = lib.coq_eval(imports, "keys_model (%s)" % t, "c18_show")
+            res.violation("the keys of a (peer id, dbid) channel disagree with Model.Keys over chan_id_of peer dbid "
+                          "(correspondence keys-ids)",
+                          {"correspondence": "keys-ids", "theorem": "C18_channel_keys_function", "names": c.get("names"),
+                           "model": model[-2000:]}, has_input=False)
         for i in ff[:2]:
             c = fcases[i]
             model = lib.coq_eval(imports, "future_model (%s)" % c["coq"], "c18_show")
@@ -112,7 +145,9 @@ def run(res):
     for c in fcases:
         if c.get("answered_true", 0) and c.get("answered_true", 0) < c.get("queries_total", 0):
             nontrivial.add(c["coq"])
-    allc = kcases + scases + fcases
+    for c, t in id_terms + ik_terms:
+        nontrivial.add(t)
+    allc = kcases + scases + fcases + [t for _, t in id_terms + ik_terms]
     cov.update({
         "evaluations": len(allc),
         "distinct_nontrivial": len(nontrivial),
@@ -137,7 +172,16 @@ def run(res):
                 "before / during / after the advance and after restarts, the CheckFutureSecret wire route (as_vec -> "
                 "from_vec -> ChannelHandler::handle) for n in {0, 1, 2, small, 2^47, random 48-bit, 2^48-2, 2^48-1} with "
                 "secret(n), secret(n-1), secret(n+1), another channel's secret(n) and random bytes, expected true exactly "
-                "for the own secret of n (monitor) and eight of the answers per channel recomputed in Coq from (seed, id).  keys-store: nine stream kinds over the real released secrets of a "
+                "for the own secret of n (monitor) and eight of the answers per channel recomputed in Coq from (seed, id).  "
+                "keys-ids: per node 15 channels of two peers named by (peer id, dbid) with dbids k, k+2^32, 2^32-1, 2^32, "
+                "2^32+1, 2^48+k, 2^63, 2^64-2, 2^64-1, hi<<32, (hi<<32)+k (12 pairs per node agree in their low 32 bits), "
+                "created through Node::new_channel and the NewChannel message, in both orders, every third set up, with a "
+                "restart: channel count in the node and in the store, look-up and store key under the harness's own "
+                "peer||dbid_le encoding, slot id, GetChannelBasepoints / GetPerCommitmentPoint(2) through the (peer, dbid) "
+                "handlers, pairwise-distinct funding key, basepoints, points 0/1, secret keys, commitment seed, first "
+                "secret, stability across orders and the restart; in Coq every real id against chan_id_of peer dbid and "
+                "three channels' keys from (seed, chan_id_of peer dbid).  In every sub-domain the channel id given to the "
+                "model and used for look-ups is the harness's own encoding, never ChannelId::new_from_peer_id_and_oid.  keys-store: nine stream kinds over the real released secrets of a "
                 "real channel (descending, gaps, wrong secret, repeats/older, the current minimum again with another secret, late start, malformed indices up to "
                 "2^64-1, long descending, mixed) with get_secret queries around every index; non-trivial = both an "
                 "accepted and a refused secret, or >= 3 slots with found and not-found/panicking queries; distinct by "
@@ -145,9 +189,9 @@ def run(res):
         "samples": [_strip(kcases[0]) if kcases else {}, _strip(acases[0]) if acases else {},
                     _strip(scases[0]) if scases else {}],
         "traces_validated_against_impl": len(allc),
-        "correspondence_disagreements": len(fk) + len(fs) + len(ff),
+        "correspondence_disagreements": len(fk) + len(fs) + len(ff) + len(fi) + len(fik),
         "monitor_failures": len(mon),
-        "harness_stats": hist.get("STATS", []) + adv.get("STATS", []) + store.get("STATS", []),
+        "harness_stats": hist.get("STATS", []) + adv.get("STATS", []) + idr.get("STATS", []) + store.get("STATS", []),
     })
     for s in cov["samples"]:
         if "histories" in s:
